@@ -25,10 +25,16 @@ Proof.
     rewrite Z.mod_add by lia. apply Z.mod_small. lia.
 Qed.
 
-Ltac ifs := repeat (match goal with
-  | |- context [if ?c then _ else _] => destruct c eqn:?
-  | H : context [if ?c then _ else _] |- _ => destruct c eqn:?
-  end).
+(* a ring position, kept as an atom for lia *)
+Definition posn (hd sz k : Z) : Z := (hd + k) mod sz.
+
+Inductive Box (P : Prop) : Prop := box : P -> Box P.
+Lemma unbox P : Box P -> P. Proof. intros [H]; exact H. Qed.
+
+Ltac ifs :=
+  repeat (match goal with H : context [if ?c then _ else _] |- _ => revert H end);
+  repeat (match goal with |- context [if ?c then _ else _] => destruct c eqn:? end);
+  intros.
 
 Section Refine.
   Context {A : Type}.
@@ -44,7 +50,7 @@ Section Refine.
     r_index : index (buf s) = a_next a;
     r_len   : blen (buf s) = Z.min (a_cap a) (zlen a);
     r_elems : forall k, 0 <= k < blen (buf s) ->
-                recs (buf s) ((head (buf s) + k) mod size (buf s)) =
+                recs (buf s) (posn (head (buf s)) (size (buf s)) k) =
                 nth_error (a_log a) (Z.to_nat (zlen a - blen (buf s) + k));
     r_flush : flushc (buf s) = a_flush a;
     r_kv    : kvv s = a_kv a
@@ -64,9 +70,9 @@ Section Refine.
 
   (* (head + blen) mod size = tail *)
   Lemma head_plus_len h : 0 <= head h < size h -> 0 <= tail h < size h ->
-    (head h + blen h) mod size h = tail h.
+    posn (head h) (size h) (blen h) = tail h.
   Proof.
-    intros Hh Ht. unfold blen, distance_to_tail.
+    intros Hh Ht. unfold posn, blen, distance_to_tail.
     destruct (tail h <? head h) eqn:E; rewrite mod_wrap by lia.
     - destruct (head h + (tail h + size h - head h) <? size h) eqn:E2; lia.
     - destruct (head h + (tail h - head h) <? size h) eqn:E2; lia.
@@ -77,9 +83,9 @@ Section Refine.
 
   (* positions inside the occupied part are pairwise different and different from the tail *)
   Lemma pos_inj h k1 k2 : 0 <= head h < size h -> 0 <= k1 < size h -> 0 <= k2 < size h ->
-    (head h + k1) mod size h = (head h + k2) mod size h -> k1 = k2.
+    posn (head h) (size h) k1 = posn (head h) (size h) k2 -> k1 = k2.
   Proof.
-    intros Hh H1 H2. rewrite !mod_wrap by lia.
+    intros Hh H1 H2. unfold posn. rewrite !mod_wrap by lia.
     destruct (head h + k1 <? size h) eqn:E1; destruct (head h + k2 <? size h) eqn:E2; lia.
   Qed.
 
@@ -89,82 +95,71 @@ Section Refine.
   Proof. intros ->. rewrite nth_error_app2 by lia. rewrite Nat.sub_diag. reflexivity. Qed.
 
   (* ---------------- Record ---------------- *)
+  (* pure arithmetic of the head/tail update, kept away from the big context *)
+  Lemma record_arith (hd tl sz cap n L : Z) :
+    sz = cap + 1 -> 1 <= cap -> 0 <= hd < sz -> 0 <= tl < sz -> 0 <= n ->
+    L = (if tl <? hd then tl + sz - hd else tl - hd) -> L = Z.min cap n ->
+    forall tl1 hd1, tl1 = (tl + 1) mod sz -> hd1 = (if tl1 =? hd then (hd + 1) mod sz else hd) ->
+    0 <= hd1 < sz /\ 0 <= tl1 < sz /\
+    (if tl1 <? hd1 then tl1 + sz - hd1 else tl1 - hd1) = Z.min cap (n + 1) /\
+    (forall k, 0 <= k < Z.min cap (n + 1) ->
+       posn hd1 sz k = posn hd sz (k + (if L =? cap then 1 else 0))).
+  Proof.
+    intros Hsz Hcap Hh Ht Hn HL Hlen tl1 hd1 Ht1 Hh1.
+    rewrite mod_wrap in Ht1 by lia. rewrite (mod_wrap (hd + 1)) in Hh1 by lia.
+    assert (Hb : 0 <= hd1 < sz /\ 0 <= tl1 < sz) by (subst tl1 hd1; ifs; lia).
+    split; [tauto|]. split; [tauto|]. split.
+    - subst tl1 hd1. ifs; lia.
+    - intros k Hk. unfold posn. rewrite !mod_wrap by (subst tl1 hd1; ifs; lia). subst tl1 hd1. ifs; lia.
+  Qed.
+
+  Lemma idx_arith (L cap n k : Z) : L = Z.min cap n -> 1 <= cap -> 0 <= n -> 0 <= k < Z.min cap (n + 1) ->
+    0 <= k + (if L =? cap then 1 else 0) <= L /\
+    n + 1 - Z.min cap (n + 1) + k = n - L + (k + (if L =? cap then 1 else 0)).
+  Proof. intros HL Hc Hn Hk. destruct (L =? cap) eqn:E; lia. Qed.
+
   Lemma rel_record s a r ok : Rel s a ->
     Rel (record s r ok) (fst (arun_op a (ORecord r ok))).
   Proof.
     intros [Hsz Hcap Hh Ht Hidx Hlen Hel Hfl Hkv].
     pose proof (head_plus_len (buf s) Hh Ht) as Hhl.
     pose proof (blen_bounds (buf s) Hh Ht) as Hbl.
-    set (h := buf s) in *. set (sz := size h) in *. set (L := blen h) in *.
-    set (n := zlen a) in *.
-    assert (Hn : 0 <= n) by (unfold n, zlen; lia).
-    (* the new head / tail / length, independently of the flush branch *)
-    set (tail1 := (tail h + 1) mod sz).
-    set (head1 := if tail1 =? head h then (head h + 1) mod sz else head h).
-    assert (Htail1 : tail1 = if tail h + 1 <? sz then tail h + 1 else 0).
-    { unfold tail1. rewrite mod_wrap by lia. destruct (tail h + 1 <? sz) eqn:E; lia. }
-    assert (HL : L = if tail h <? head h then tail h + sz - head h else tail h - head h) by reflexivity.
-    assert (Hfull : tail1 = head h <-> L = a_cap a).
-    { rewrite Htail1, HL. destruct (tail h + 1 <? sz) eqn:E1; destruct (tail h <? head h) eqn:E2; lia. }
-    assert (Hhead1 : head1 = if L =? a_cap a then (if head h + 1 <? sz then head h + 1 else 0) else head h).
-    { unfold head1. destruct (tail1 =? head h) eqn:E.
-      - apply Z.eqb_eq in E. apply Hfull in E. rewrite (proj2 (Z.eqb_eq _ _) E).
-        rewrite mod_wrap by lia. destruct (head h + 1 <? sz) eqn:E4; lia.
-      - apply Z.eqb_neq in E. destruct (L =? a_cap a) eqn:E2; [|reflexivity].
-        apply Z.eqb_eq in E2. apply Hfull in E2. contradiction. }
-    assert (Hlen1 : (if tail1 <? head1 then tail1 + sz - head1 else tail1 - head1) = Z.min (a_cap a) (n + 1)).
-    { rewrite Hhead1, Htail1. clear Hhead1 Htail1 Hfull Hel. ifs; lia. }
-    assert (Hel1 : forall k, 0 <= k < Z.min (a_cap a) (n + 1) ->
-              upd (recs h) (tail h) (Some r) ((head1 + k) mod sz) =
-              nth_error (a_log a ++ [r]) (Z.to_nat (n + 1 - Z.min (a_cap a) (n + 1) + k))).
-    { intros k Hk. unfold upd.
-      destruct (Z.eq_dec L (a_cap a)) as [EL|EL].
-      - (* full: the oldest record is dropped *)
-        assert (Hh1 : head1 = if head h + 1 <? sz then head h + 1 else 0).
-        { rewrite Hhead1. replace (L =? a_cap a) with true by lia. reflexivity. }
-        assert (Hpos : (head1 + k) mod sz = (head h + (k + 1)) mod sz).
-        { rewrite Hh1. rewrite !mod_wrap by (ifs; lia). ifs; lia. }
-        rewrite Hpos.
-        destruct (Z.eq_dec (k + 1) L) as [Ek|Ek].
-        + rewrite Ek, Hhl, Z.eqb_refl. symmetry. apply nth_error_snoc_eq. unfold n, zlen in *. lia.
-        + assert (Hne : (head h + (k + 1)) mod sz <> tail h).
-          { rewrite <- Hhl. intros Heq. apply pos_inj in Heq; lia. }
-          apply Z.eqb_neq in Hne. rewrite Hne.
-          rewrite Hel by lia. rewrite nth_error_snoc_lt by (unfold n, zlen in *; lia).
-          f_equal. lia.
-      - (* room left: nothing is dropped *)
-        assert (Hh1 : head1 = head h).
-        { rewrite Hhead1. replace (L =? a_cap a) with false by lia. reflexivity. }
-        rewrite Hh1.
-        destruct (Z.eq_dec k L) as [Ek|Ek].
-        + rewrite Ek, Hhl, Z.eqb_refl. symmetry. apply nth_error_snoc_eq. unfold n, zlen in *. lia.
-        + assert (Hne : (head h + k) mod sz <> tail h).
-          { rewrite <- Hhl. intros Heq. apply pos_inj in Heq; lia. }
-          apply Z.eqb_neq in Hne. rewrite Hne.
-          rewrite Hel by lia. rewrite nth_error_snoc_lt by (unfold n, zlen in *; lia).
-          f_equal. lia. }
-    assert (Hh1b : 0 <= head1 < sz).
-    { rewrite Hhead1. destruct (L =? a_cap a) eqn:E0; destruct (head h + 1 <? sz) eqn:E; lia. }
-    assert (Ht1b : 0 <= tail1 < sz).
-    { rewrite Htail1. destruct (tail h + 1 <? sz) eqn:E; lia. }
-    assert (Hzl : Z.of_nat (length (a_log a ++ [r])) = n + 1).
-    { rewrite app_length. cbn. unfold n, zlen. lia. }
-    unfold record, arun_op. fold h. fold sz. fold tail1. fold head1.
-    rewrite Hfl.
+    assert (Hn : 0 <= zlen a) by (unfold zlen; lia).
+    remember ((tail (buf s) + 1) mod size (buf s)) as tail1 eqn:Etl.
+    remember (if tail1 =? head (buf s) then (head (buf s) + 1) mod size (buf s) else head (buf s)) as head1 eqn:Ehd.
+    destruct (record_arith (head (buf s)) (tail (buf s)) (size (buf s)) (a_cap a) (zlen a) (blen (buf s))
+                Hsz Hcap Hh Ht Hn eq_refl Hlen tail1 head1 Etl Ehd) as (Hh1b & Ht1b & Hlen1 & Hpos).
+    apply box in Etl. apply box in Ehd.
+    assert (Hzl : Z.of_nat (length (a_log a ++ [r])) = zlen a + 1).
+    { rewrite app_length. cbn. unfold zlen. lia. }
+    assert (Hel1 : forall k, 0 <= k < Z.min (a_cap a) (zlen a + 1) ->
+              upd (recs (buf s)) (tail (buf s)) (Some r) (posn head1 (size (buf s)) k) =
+              nth_error (a_log a ++ [r]) (Z.to_nat (zlen a + 1 - Z.min (a_cap a) (zlen a + 1) + k))).
+    { intros k Hk. unfold upd. rewrite (Hpos k Hk).
+      set (k' := k + (if blen (buf s) =? a_cap a then 1 else 0)).
+      assert (Hk' : 0 <= k' <= blen (buf s) /\ zlen a + 1 - Z.min (a_cap a) (zlen a + 1) + k = zlen a - blen (buf s) + k').
+      { unfold k'. apply idx_arith; assumption. }
+      clearbody k'. destruct Hk' as [Hk1 Hk2]. rewrite Hk2.
+      destruct (Z.eq_dec k' (blen (buf s))) as [Ek|Ek].
+      - rewrite Ek, Hhl, Z.eqb_refl. symmetry. apply nth_error_snoc_eq. unfold zlen in *. lia.
+      - assert (Hne : posn (head (buf s)) (size (buf s)) k' <> tail (buf s)).
+        { rewrite <- Hhl. intros Heq. apply pos_inj in Heq; lia. }
+        apply Z.eqb_neq in Hne. rewrite Hne.
+        rewrite Hel by lia. apply eq_sym, nth_error_snoc_lt. unfold zlen in *. lia. }
+    apply unbox in Etl. apply unbox in Ehd. unfold record, arun_op. rewrite <- Etl, <- Ehd, Hfl. clear Etl Ehd Hpos Hel.
     destruct (a_flush a - 1 <=? 0) eqn:EF; cbn [fst].
     - constructor; cbn [buf kvv size head tail index flushc recs a_cap a_log a_flush a_kv a_base];
         unfold blen, distance_to_tail, a_next, zlen;
         cbn [buf kvv size head tail index flushc recs a_cap a_log a_flush a_kv a_base];
-        fold sz; rewrite ?Hzl; try assumption; try reflexivity.
-      + unfold a_next in Hidx. fold h in Hidx. fold n in Hidx. unfold zlen in *. lia.
+        rewrite ?Hzl; try assumption; try reflexivity.
+      + unfold a_next, zlen in *. lia.
       + intros k Hk. rewrite Hlen1 in *. apply Hel1. exact Hk.
-      + unfold a_next in Hidx. fold h in Hidx. rewrite Hidx, Hkv. fold n. unfold zlen in *.
-        destruct ok; reflexivity.
+      + unfold a_next, zlen in *. rewrite Hidx, Hkv. destruct ok; reflexivity.
     - constructor; cbn [buf kvv size head tail index flushc recs a_cap a_log a_flush a_kv a_base];
         unfold blen, distance_to_tail, a_next, zlen;
         cbn [buf kvv size head tail index flushc recs a_cap a_log a_flush a_kv a_base];
-        fold sz; rewrite ?Hzl; try assumption; try reflexivity.
-      + unfold a_next in Hidx. fold h in Hidx. fold n in Hidx. unfold zlen in *. lia.
+        rewrite ?Hzl; try assumption; try reflexivity.
+      + unfold a_next, zlen in *. lia.
       + intros k Hk. rewrite Hlen1 in *. apply Hel1. exact Hk.
   Qed.
 
@@ -173,8 +168,8 @@ Section Refine.
 
   Lemma collect_spec h : 0 <= head h < size h -> 0 <= tail h < size h ->
     forall d j fuel, 0 <= j -> j + Z.of_nat d = blen h -> (d <= fuel)%nat ->
-      collect fuel h ((head h + j) mod size h) =
-      Some (map (fun k => recs h ((head h + k) mod size h)) (zseq j d)).
+      collect fuel h (posn (head h) (size h) j) =
+      Some (map (fun k => recs h (posn (head h) (size h) k)) (zseq j d)).
   Proof.
     intros Hh Ht. pose proof (head_plus_len h Hh Ht) as Hhl. pose proof (blen_bounds h Hh Ht) as Hbl.
     induction d as [|d IH]; intros j fuel Hj Hd Hf.
@@ -182,11 +177,11 @@ Section Refine.
       destruct fuel; cbn [collect]; rewrite Z.eqb_refl; reflexivity.
     - destruct fuel as [|fuel]; [lia|].
       cbn [collect zseq map].
-      assert (Hne : (head h + j) mod size h <> tail h).
+      assert (Hne : posn (head h) (size h) j <> tail h).
       { rewrite <- Hhl. intros Heq. apply pos_inj in Heq; lia. }
       apply Z.eqb_neq in Hne. rewrite Hne.
-      assert (Hnext : ((head h + j) mod size h + 1) mod size h = (head h + (j + 1)) mod size h).
-      { rewrite (mod_wrap (head h + j)) by lia.
+      assert (Hnext : (posn (head h) (size h) j + 1) mod size h = posn (head h) (size h) (j + 1)).
+      { unfold posn. clear Hne Hhl IH. rewrite (mod_wrap (head h + j)) by lia.
         destruct (head h + j <? size h) eqn:E1.
         - f_equal. lia.
         - rewrite !mod_wrap by lia.
@@ -194,7 +189,7 @@ Section Refine.
       rewrite Hnext. rewrite (IH (j + 1) fuel) by lia. reflexivity.
   Qed.
 
-  Lemma map_nth_skipn (l : list A) : forall d c j, 0 <= c + j -> Z.to_nat (c + j) + d = length l ->
+  Lemma map_nth_skipn (l : list A) : forall d c j, 0 <= c + j -> (Z.to_nat (c + j) + d = length l)%nat ->
     map (fun k => nth_error l (Z.to_nat (c + k))) (zseq j d) = map Some (skipn (Z.to_nat (c + j)) l).
   Proof.
     induction d as [|d IH]; intros c j H0 Hd.
@@ -228,6 +223,7 @@ Section Refine.
       set (j := i - a_first a).
       assert (Hj : 0 <= j < blen (buf s)).
       { unfold j, a_first, a_next in *. rewrite Hlen. unfold zlen. lia. }
+      change ((head (buf s) + (i - a_first a)) mod size (buf s)) with (posn (head (buf s)) (size (buf s)) j).
       rewrite (collect_spec (buf s) Hh Ht (Z.to_nat (blen (buf s) - j)) j) by lia.
       f_equal.
       rewrite (map_ext_in _ (fun k => nth_error (a_log a) (Z.to_nat ((zlen a - blen (buf s)) + k)))).
@@ -238,7 +234,7 @@ Section Refine.
           apply G in Hk. lia. }
       rewrite map_nth_skipn.
       + f_equal. f_equal. unfold j, a_first, a_next in *. rewrite Hlen. unfold zlen. lia.
-      + unfold zlen. lia.
+      + unfold zlen in *. lia.
       + unfold zlen in *. lia.
     - replace ((a_first a <=? i) && (i <? a_next a)) with false by (symmetry; lia).
       reflexivity.
@@ -334,10 +330,10 @@ Section Refine.
     intros [Hf Hn] Hff Hnr. pose proof flush_every_pos as Hp.
     destruct o as [r ok|i|i| | |cap ok]; cbn [arun_op fst]; try (split; assumption); try discriminate.
     - cbn in Hff. rewrite andb_true_r in Hff. subst ok.
-      destruct (a_flush a - 1 <=? 0) eqn:E; unfold LagInv, a_next in *; cbn [a_flush a_kv a_base a_log kv0];
-        rewrite app_length; cbn [length]; lia.
+      destruct (a_flush a - 1 <=? 0) eqn:E; unfold LagInv, a_next in *; cbn [fst a_flush a_kv a_base a_log kv0];
+        rewrite ?app_length; cbn [length]; lia.
     - cbn in Hff. rewrite andb_true_r in Hff. subst ok.
-      unfold LagInv, a_next, reload_index; cbn [a_flush a_kv a_base a_log length]. destruct (a_kv a); cbn [kv0]; lia.
+      unfold LagInv, a_next, reload_index; cbn [fst a_flush a_kv a_base a_log length]. destruct (a_kv a); cbn [kv0]; lia.
   Qed.
 
   Lemma lag_run ops : forall a, LagInv a -> faultfree ops = true -> noreset ops = true ->
